@@ -262,6 +262,37 @@ def scenarios():
       l = a['s2']
       return (s1.args['s1'], l[0] is a['s1'], pool.inst_of(l[1]).args['s1'])
     return shape(b0) == shape(b1) or f'{shape(b0)} vs {shape(b1)}'
+  def s_inline_shared_argument():
+    # a sub-config passed to the auto_config function and referenced elsewhere too stays one object
+    @auto_config.auto_config(experimental_always_inline=False)
+    def pipeline(tok):
+      return H.ClsA(s1=tok, s2=H.g4(s1=tok))
+    tok = fdl.Config(H.g4, s1=7)
+    outer = fdl.Config(H.f1, s1=fdl.Config(pipeline, tok=tok), s2=tok)
+    def shape(b):
+      a = pool.inst_of(b).args
+      inner = pool.inst_of(a['s1']).args
+      return (inner['s1'] is a['s2'], pool.inst_of(inner['s2']).args['s1'] is a['s2'])
+    before = shape(fdl.build(outer))
+    auto_config.inline(outer.s1)
+    after = shape(fdl.build(outer))
+    return (before == after == (True, True) and outer.s1.s1 is outer.s2) or f'{before} -> {after}'
+  def s_partials_with_unnamed_arguments():
+    # Partials whose only arguments go to **kwargs, to *args or to positional-only parameters are configured
+    def kwf(a=1, **kw):
+      return (a, kw)
+    def posf(a=1, /, *rest):
+      return (a, rest)
+    cases = [fdl.Partial(kwf, verbose=True), fdl.Partial(posf, 5), fdl.Partial(posf, 1, 2, 3),
+             fdl.Partial(kwf, a=1, extra=2)]
+    for c in cases:
+      root = fdl.Config(H.f1, s1=[c])
+      t = transform.replace_unconfigured_partials_with_callables(root)
+      b0, b1 = fdl.build(root), fdl.build(t)
+      f0, f1 = pool.inst_of(b0).args['s1'][0], pool.inst_of(b1).args['s1'][0]
+      if f0() != f1():
+        return f'{c}: calling the result gives {f1()} instead of {f0()}'
+    return True
   def s_unset_tagged_in_container():
     cfg = fdl.Config(H.f1, s1=[H.T1.new(), H.T1.new(4)], s2=H.T2.new(5))
     m = tagging.materialize_tags(cfg)
@@ -316,10 +347,12 @@ def scenarios():
                    ('dataclass-default-factory', s_dataclass_default_factory),
                    ('convert_dataclasses_to_configs', s_convert_dataclasses),
                    ('auto_config-inline', s_inline),
+                   ('auto_config-inline-shared-argument', s_inline_shared_argument),
+                   ('partials-with-unnamed-arguments', s_partials_with_unnamed_arguments),
                    ('unset-tagged-in-container', s_unset_tagged_in_container),
                    ('partials-in-containers', s_partial_in_containers)]:
     probe(name, fn)
-  return out, 10
+  return out, 12
 
 
 def main():
